@@ -1751,6 +1751,9 @@ class Interp:
             for it in v.items:
                 self._add_value(c, it, TRUE, None, None)
             return c
+        if self.concrete and isinstance(v, Const) and isinstance(v.value, str) and len(v.value) <= 64:
+            # (concrete runs) a known string iterated character by character
+            return Coll([Part("lit", TRUE, items=(Const(ch),)) for ch in v.value], label=repr(v.value))
         if isinstance(v, Unknown) and self.concrete and "CONVERTED" in v.taint and "PARSED" not in v.taint and not hasattr(v, "_coll"):
             v._coll = Coll([Part("lit", TRUE, items=(ci,)) for ci in self.conc_imports], label=v.text)  # type: ignore[attr-defined]
         if isinstance(v, Unknown):
@@ -1895,6 +1898,8 @@ class Interp:
         their conditions (then positions are not known)."""
         if isinstance(v, TupleV):
             return list(v.items), TRUE
+        if isinstance(v, Const) and isinstance(v.value, str) and len(v.value) <= 64:
+            return [Const(ch) for ch in v.value], TRUE
         if not isinstance(v, Coll) or not v.parts or v.removals or v.keyed:
             return None
         g0 = v.parts[0].guard
@@ -2885,6 +2890,26 @@ class Interp:
             c = self.copy_of(a)
             c.keyed = name.endswith("fromkeys")
             return c
+        if name in ("itertools.accumulate", "accumulate") and args and self.concrete:
+            # (concrete runs) running totals of a sequence whose elements are all known, carried out step by step
+            seq = self._sequence_items(args[0])
+            fn_ = args[1] if len(args) > 1 else kwargs.get("func")
+            if seq is not None and (seq[1] == TRUE or seq[1] == self.guard() or self.sat(conj([self.guard(), seq[1]]))) and len(seq[0]) <= 32:
+                items_ = list(seq[0])
+                if "initial" in kwargs and not isinstance(kwargs["initial"], NoneV):
+                    items_ = [kwargs["initial"], *items_]
+                outs: list = []
+                acc_: "V | None" = None
+                for it_ in items_:
+                    if acc_ is None:
+                        acc_ = it_
+                    elif fn_ is None or isinstance(fn_, NoneV):
+                        ca_, cb_ = conc(acc_), conc(it_)
+                        acc_ = absv(ca_ + cb_) if ca_ is not _NOCONC and cb_ is not _NOCONC else Unknown("accumulate(..)", frozenset({"GAP"}))
+                    else:
+                        acc_ = self.call_value(fr, fn_, [acc_, it_], {}, e)
+                    outs.append(acc_)
+                return TupleV(outs)
         if name in ("itertools.chain", "chain"):
             out = Coll()
             for a in args:
